@@ -74,7 +74,21 @@ class H9(SMHooks):
             return interp.binop(ast.Mult, a, lg)
         return SMHooks.on_call(self, interp, f, args, kwargs, node)
 
+    def np_func(self, I, name):
+        if name == 'finfo':
+            # machine constants: a positive tolerance symbol
+            return lambda *a, **k: Rec(
+                'finfo', resolution=Rat.var('eps_machine'),
+                eps=Rat.var('eps_machine'), tiny=Rat.var('eps_machine'))
+        return SMHooks.np_func(self, I, name)
+
     def on_decide(self, interp, cond, node):
+        if cond.rat is not None and 'eps_machine' in [
+                v for v in cond.rat.vars() if isinstance(v, str)] and \
+                not cond.key.startswith('eq0:'):
+            # a scale-dependent quantity compared with an absolute tolerance:
+            # a regular (non-zero) point can lie on either side
+            return interp.decide('tolerance test ' + cond.key, node)
         if cond.rat is not None and cond.key.startswith('eq0:'):
             return False           # generic parameters and points
         k = cond.key.split(':')[0]
@@ -215,6 +229,14 @@ def builders(model):
             I, 'ScalingFunctional', NField('R'), Rat.var('s'))
         B['IdentityFunctional[field]'] = lambda I: inst(
             I, 'IdentityFunctional', NField('R'))
+    # a quotient on the real line whose divisor is linear, not constant
+    # (its gradient has Lipschitz constant 0): t^2 / (s t)
+    B['FunctionalQuotient[Id * Id / ScalingFunctional(s)][field]'] = (
+        lambda I: inst(I, 'FunctionalQuotient', inst(
+            I, 'FunctionalProduct', inst(I, 'IdentityFunctional',
+                                         NField('R')),
+            inst(I, 'IdentityFunctional', NField('R'))),
+            inst(I, 'ScalingFunctional', NField('R'), Rat.var('s'))))
     # derived functionals through the dunders / methods of Functional, on
     # non-quadratic leaves and weighted spaces
     def leaf(I, w, kind='L2Norm'):
@@ -261,6 +283,14 @@ def builders(model):
         B['FunctionalQuotient[L2NormSquared / L2Norm,%s]' % t] = (
             lambda I, w=w: inst(I, 'FunctionalQuotient',
                                 leaf(I, w, 'L2NormSquared'), leaf(I, w)))
+        # a divisor that is affine: its gradient has Lipschitz constant 0
+        # without being constant
+        B['FunctionalQuotient[L2NormSquared / (<., v> + c),%s]' % t] = (
+            lambda I, w=w: inst(I, 'FunctionalQuotient',
+                                leaf(I, w, 'L2NormSquared'),
+                                inst(I, 'QuadraticForm',
+                                     vector=sym_elem(X(w), 'v'),
+                                     constant=Rat.var('c'))))
         B['BregmanDistance[KullbackLeibler,%s]' % t] = lambda I, w=w: inst(
             I, 'BregmanDistance', leaf(I, w, 'KullbackLeibler'),
             sym_elem(X(w), 'y'), sym_elem(X(w), 'u'))
@@ -324,9 +354,9 @@ def builders(model):
     return B
 
 
-def evaluate(model, build):
+def evaluate(model, build, assume=None):
     H = H9()
-    I = SMInterp(model, {}, H)
+    I = SMInterp(model, assume if assume is not None else {}, H)
     f = build(I)
     dom = I.getattr_value(f, 'domain')
     res = {'dom': dom}
@@ -564,7 +594,17 @@ def run(rep, model):
         rel, line = _where(model, name)
         try:
             from ..core import with_budget
-            r = with_budget(lambda: evaluate(model, b))
+            from ..forks import explore
+            leaves = with_budget(lambda: explore(
+                lambda a: evaluate(model, b, a), limit=8))
+            r = leaves[0][1]
+            for a_, r_ in leaves[1:]:
+                # every outcome of a tolerance test must satisfy the rules
+                for k_ in ('grad_bad', 'der_bad'):
+                    r[k_] = list(r[k_]) + [
+                        '%s [when %s]' % (m, '; '.join(
+                            '%s is %s' % (str(q)[:70], v)
+                            for q, v in a_.items())) for m in r_[k_]]
         except (Undecided, Fork) as e:
             rep.undecided('R6', name, str(e), rel)
             continue
